@@ -629,10 +629,10 @@ impl Prop for Finds {
     }
     fn floors(&self) -> Vec<(&'static str, u64, u64)> {
         match self.0 {
-            Which::Prefix => vec![("prefix len 1", 500, 5000), ("prefix len 2", 500, 5000), ("prefix len >3", 2000, 20000), ("word with stem < len", 200, 2000), ("function word", 20, 200), ("word > 20 letters", 20, 200), ("judged queries echoed through the registry after a locale switch of the id", 500, 5000), ("judged queries preceded by the same query under a lower limit", 1000, 10000), ("stores with a title in letters outside the BMP", 20, 200), ("stores with a word (or word pair) of more than 1024 letters", 2, 20), ("stores with a word of more than 4096 letters", 2, 10), ("stores cleared and refilled before the judged searches", 100, 1000), ("judged queries preceded by the searches of a person typing them", 5000, 50000), ("titles with more than 20 words", 100, 1000), ("catalogues of more than 2^19 records that share their first letter", 1, 10), ("titles with more than 1024 words", 1, 5)],
-            Which::Typo => vec![("substitution at first", 50, 500), ("insertion at first", 50, 500), ("deletion at first", 50, 500), ("transposition at first", 50, 500), ("transposition at last", 50, 500), ("len 5", 200, 2000), ("len >20", 100, 1000), ("judged queries echoed through the registry after a locale switch of the id", 500, 5000), ("judged queries preceded by the same query under a lower limit", 1000, 10000), ("stores with a title in letters outside the BMP", 20, 200), ("stores with a word (or word pair) of more than 1024 letters", 2, 20), ("stores with a word of more than 4096 letters", 2, 10), ("stores cleared and refilled before the judged searches", 100, 1000), ("typo letter that is an accented letter of the language", 3000, 30000), ("judged queries preceded by the searches of a person typing them", 5000, 50000), ("titles with more than 20 words", 30, 300), ("exhaustive-letter edits", 30000, 250000), ("exhaustive-letter words that are function words", 150, 150), ("titles with more than 1024 words", 1, 5)],
-            Which::Whole => vec![("whole title", 1000, 10000), ("first last", 300, 3000), ("judged queries echoed through the registry after a locale switch of the id", 500, 5000), ("judged queries preceded by the same query under a lower limit", 1000, 10000), ("stores with a title in letters outside the BMP", 20, 200), ("stores with a word (or word pair) of more than 1024 letters", 2, 20), ("stores with a word of more than 4096 letters", 2, 10), ("stores cleared and refilled before the judged searches", 100, 1000), ("judged queries preceded by the searches of a person typing them", 5000, 50000), ("last first", 300, 3000), ("title with function word", 50, 500), ("titles with more than 20 words", 200, 2000), ("catalogues searched while small, then grown and given limit = N", 6, 60), ("titles with more than 65 536 distinct grams", 1, 10), ("titles with more than 1024 words", 1, 5)],
-            Which::SplitJoin => vec![("split", 2000, 20000), ("split after first letter", 200, 2000), ("judged queries echoed through the registry after a locale switch of the id", 500, 5000), ("judged queries preceded by the same query under a lower limit", 1000, 10000), ("stores with a title in letters outside the BMP", 20, 200), ("stores with a word (or word pair) of more than 1024 letters", 2, 20), ("stores with a word of more than 4096 letters", 2, 10), ("stores cleared and refilled before the judged searches", 100, 1000), ("judged queries preceded by the searches of a person typing them", 5000, 50000), ("join", 100, 1000), ("join with 1-letter first word", 3, 30), ("titles with more than 20 words", 100, 1000), ("split followed by a separator", 20000, 200000), ("split next to symbols inside the word", 300, 3000), ("titles with more than 1024 words", 1, 5)],
+            Which::Prefix => vec![("prefix len 1", 500, 5000), ("prefix len 2", 500, 5000), ("prefix len >3", 2000, 20000), ("word with stem < len", 200, 2000), ("function word", 20, 200), ("word > 20 letters", 20, 200), ("judged queries echoed through the registry after a locale switch of the id", 500, 5000), ("judged queries preceded by the same query under a lower limit", 1000, 10000), ("stores with a title in letters outside the BMP", 20, 200), ("stores with a word (or word pair) of more than 1024 letters", 2, 20), ("stores with a word of more than 4096 letters", 2, 10), ("stores cleared and refilled before the judged searches", 100, 1000), ("judged queries preceded by the searches of a person typing them", 5000, 50000), ("titles with more than 20 words", 100, 1000), ("catalogues of more than 2^19 records that share their first letter", 1, 10), ("titles with more than 1024 words", 1, 5), ("queries judged after a pause of about 2^16 searches that left their record alone", 4, 20)],
+            Which::Typo => vec![("substitution at first", 50, 500), ("insertion at first", 50, 500), ("deletion at first", 50, 500), ("transposition at first", 50, 500), ("transposition at last", 50, 500), ("len 5", 200, 2000), ("len >20", 100, 1000), ("judged queries echoed through the registry after a locale switch of the id", 500, 5000), ("judged queries preceded by the same query under a lower limit", 1000, 10000), ("stores with a title in letters outside the BMP", 20, 200), ("stores with a word (or word pair) of more than 1024 letters", 2, 20), ("stores with a word of more than 4096 letters", 2, 10), ("stores cleared and refilled before the judged searches", 100, 1000), ("typo letter that is an accented letter of the language", 3000, 30000), ("judged queries preceded by the searches of a person typing them", 5000, 50000), ("titles with more than 20 words", 30, 300), ("exhaustive-letter edits", 30000, 250000), ("exhaustive-letter words that are function words", 150, 150), ("titles with more than 1024 words", 1, 5), ("queries judged after a pause of about 2^16 searches that left their record alone", 4, 20)],
+            Which::Whole => vec![("whole title", 1000, 10000), ("first last", 300, 3000), ("judged queries echoed through the registry after a locale switch of the id", 500, 5000), ("judged queries preceded by the same query under a lower limit", 1000, 10000), ("stores with a title in letters outside the BMP", 20, 200), ("stores with a word (or word pair) of more than 1024 letters", 2, 20), ("stores with a word of more than 4096 letters", 2, 10), ("stores cleared and refilled before the judged searches", 100, 1000), ("judged queries preceded by the searches of a person typing them", 5000, 50000), ("last first", 300, 3000), ("title with function word", 50, 500), ("titles with more than 20 words", 200, 2000), ("catalogues searched while small, then grown and given limit = N", 6, 60), ("titles with more than 65 536 distinct grams", 1, 10), ("titles with more than 1024 words", 1, 5), ("queries judged after a pause of about 2^16 searches that left their record alone", 4, 20)],
+            Which::SplitJoin => vec![("split", 2000, 20000), ("split after first letter", 200, 2000), ("judged queries echoed through the registry after a locale switch of the id", 500, 5000), ("judged queries preceded by the same query under a lower limit", 1000, 10000), ("stores with a title in letters outside the BMP", 20, 200), ("stores with a word (or word pair) of more than 1024 letters", 2, 20), ("stores with a word of more than 4096 letters", 2, 10), ("stores cleared and refilled before the judged searches", 100, 1000), ("judged queries preceded by the searches of a person typing them", 5000, 50000), ("join", 100, 1000), ("join with 1-letter first word", 3, 30), ("titles with more than 20 words", 100, 1000), ("split followed by a separator", 20000, 200000), ("split next to symbols inside the word", 300, 3000), ("titles with more than 1024 words", 1, 5), ("queries judged after a pause of about 2^16 searches that left their record alone", 4, 20)],
         }
     }
     fn ratios(&self) -> Vec<(&'static str, &'static str, f64, f64)> {
@@ -791,7 +791,57 @@ impl Prop for Finds {
                 cx.count("titles with more than 65 536 distinct grams");
                 self.check_record(cx, &mut st, &json!(format!("3 records; record 2 has {} words of 230 different letters", nwords)), &recs[1], &mut done);
             }
-            "big" if idx % 16 == 7 && cx.tier != Tier::Miri => {
+            "big" if idx % 16 == 10 && cx.tier != Tier::Miri => {
+                // a session on one small store: the judged query finds its record, then 65 533 / 65 534 / 65 535 / 65 536 searches
+                // for another record's word follow that share no gram with it (the judged record is left alone for exactly that
+                // long), then the judged query again - what found the record before the pause finds it after the pause
+                let lang = LANGS[((idx / 16) % NL) as usize];
+                let alpha: Vec<char> = gen::lower_alphabet(lang).into_iter().filter(|c| c.is_alphabetic()).collect();
+                let half = alpha.len() / 2;
+                if half < 3 {
+                    return;
+                }
+                let a = gen::rand_word(&mut cx.rng, &alpha[..half], 7, 9);
+                let b = gen::rand_word(&mut cx.rng, &alpha[half..], 5, 8);
+                let ac = cv(&a);
+                let q = match self.0 {
+                    Which::Prefix => s(&ac[..cx.rng.range(1, 4)]),
+                    Which::Typo => {
+                        let mut e = ac.clone();
+                        let p = cx.rng.range(1, e.len() - 2);
+                        e.swap(p, p + 1);
+                        s(&e)
+                    }
+                    Which::Whole => a.clone(),
+                    Which::SplitJoin => format!("{} {}", s(&ac[..3]), s(&ac[3..])),
+                };
+                let recs: Vec<Rec> = vec![(1, a.clone(), 1), (2, b.clone(), 2)];
+                let mut st = St::build_sentinel(lang, &recs, 10);
+                // (every search of this store is exactly one call: no foreign query first, no retained buffer)
+                st.foreign_query_first = false;
+                st.reuse_query_buffer = false;
+                for gap in [65_533usize, 65_534, 65_535, 65_536].iter() {
+                    cx.ctx(format!("session lang={} recs={:?} q={:?} pause={}", lang, recs, q, gap));
+                    let before = st.search_ids(&q);
+                    if !before.contains(&1) {
+                        cx.count("session queries that did not find their record before the pause (not judged)");
+                        return;
+                    }
+                    for _ in 0..*gap {
+                        let _ = st.search_ids(&b);
+                    }
+                    let after = st.search_ids(&q);
+                    cx.eval();
+                    cx.count("queries judged after a pause of about 2^16 searches that left their record alone");
+                    cx.key(hparts(&[lang, &a, &q, &gap.to_string(), "session"]));
+                    if !after.contains(&1) {
+                        cx.fail("not-found-after-a-pause", json!({"lang": lang, "store": recs, "limit": 10, "query": q, "expected_id": 1, "got_ids": after,
+                            "history": format!("the same query found the record ({:?}); then {} searches for {:?}, which shares no letter with the record, then the same query again", before, gap, b)}));
+                        return;
+                    }
+                }
+            }
+            "big" if idx % 16 == 6 && cx.tier != Tier::Miri => {
                 // a title of 1025-1300 words (a description rather than a name): a thousand and more words from a pool of six,
                 // then five words of its own at the very end - those, their prefixes, typos, splits and joins are judged
                 let lang = LANGS[((idx / 16) % NL) as usize];
